@@ -5,6 +5,7 @@ import (
 	"fmt"
 	"os"
 	"path/filepath"
+	"regexp"
 	"sort"
 	"sync"
 	"time"
@@ -53,9 +54,9 @@ type genViolation struct {
 type genResult struct {
 	Idx        int
 	V          *genViolation
-	Execs      int            // simulated goderive executions
-	Steps      int            // logical time: intercepted fs operations + map-range events
-	Hash       string         // identity of the explored case (world + plans + outcome), for distinct counting
+	Execs      int    // simulated goderive executions
+	Steps      int    // logical time: intercepted fs operations + map-range events
+	Hash       string // identity of the explored case (world + plans + outcome), for distinct counting
 	Nontrivial bool
 	Sample     map[string]any // decoded case (for evidence samples / replay files)
 	Probes     map[string]int
@@ -414,6 +415,8 @@ func init() { replayers["gensim"] = genReplay }
 // on a fixed set of small worlds. A mismatch is harness trouble, not a
 // violation. (The map order of the plain binary is the runtime's, so the
 // worlds here are ones whose output cannot depend on it.)
+var hexAddr = regexp.MustCompile(`0x[0-9a-f]{5,}`)
+
 func transparencyCheck(ctx *genCtx) {
 	worlds := []map[string]string{
 		{"go.mod": "module example.com/w\n\ngo 1.24\n", "p/a.go": "package p\n\ntype S struct {\n\tA int\n\tB []string\n\tC map[string]*S\n}\n\nfunc f(a, b *S) bool { return deriveEqual(a, b) && deriveCompare(a, b) == 0 && deriveHash(a) == deriveHash(b) }\n"},
@@ -437,6 +440,8 @@ func transparencyCheck(ctx *genCtx) {
 			outs[k] = derivedFiles(dir)["p/derived.gen.go"]
 			os.RemoveAll(dir)
 		}
+		// messages may print addresses (%#v of a go/types value): not part of the behaviour
+		errs[0], errs[1] = hexAddr.ReplaceAllString(errs[0], "0xADDR"), hexAddr.ReplaceAllString(errs[1], "0xADDR")
 		if exits[0] != exits[1] || outs[0] != outs[1] || errs[0] != errs[1] {
 			harnessTrouble("transparency test failed on world %d: plain exit=%d inst exit=%d; outputs equal=%v; stderr plain=%q inst=%q", i, exits[0], exits[1], outs[0] == outs[1], errs[0], errs[1])
 		}
